@@ -393,7 +393,7 @@ def check_prefix_input(out, facts):
     ps = paths(t)
     for p in ps:
         arms = [e for e in p if e[0] == 'ARM']
-        empty = [a for a in arms if isinstance(a[1], tuple) and a[1][0] == 'if' and sym.vstr(a[1][1]) == 'is_empty(buffer)']
+        empty = [a for a in arms if isinstance(a[1], tuple) and a[1][0] == 'if' and sym.vstr(a[1][1]) == 'is_empty(into)']
         if not empty:
             why.append('no empty-buffer test')
             continue
@@ -411,12 +411,12 @@ def check_prefix_input(out, facts):
             continue
         if some and isinstance(some[0][2], tuple) and some[0][2][1] == 'Some':
             sets = [e for e in p if e[0] == 'SET']
-            if len(sets) != 1 or sym.vstr(sets[0][1]) != 'buffer[0:usize]' or 'take(self.prefix).Some.0' not in sym.vstr(sets[0][2]):
+            if len(sets) != 1 or sym.vstr(sets[0][1]) != 'into[0:usize]' or 'take(self.prefix).Some.0' not in sym.vstr(sets[0][2]):
                 why.append('prefix byte is not written to buffer[0]')
-            if sym.vstr(reads[0][1]) != 'index_mut(buffer, RangeFrom::RangeFrom{0: 1:usize})':
+            if sym.vstr(reads[0][1]) != 'index_mut(into, RangeFrom::RangeFrom{0: 1:usize})':
                 why.append('rest of the buffer is not buffer[1..]: ' + sym.vstr(reads[0][1]))
         else:
-            if sym.vstr(reads[0][1]) != 'buffer':
+            if sym.vstr(reads[0][1]) != 'into':
                 why.append('without a pending prefix the whole buffer must be forwarded')
     out.ob('R04.5', key, not why, '; '.join(sorted(set(why))), f['loc'], sample={'term': sym.tstr(t)})
     g = facts.impl_method('Input', "compact::PrefixInput<'a, T>", 'remaining_len')
